@@ -30,7 +30,7 @@ def obligations(ctx):
     # `part-start-normalised` is what C08 needs of a rotation (slicing goes by literal coordinates); C13 reads
     # coordinates modulo the length, so it is not part of this property
     obs = [o for o in obs if "part-start-normalised" not in o.name]
-    return obs + lemmas(ctx)
+    return obs + ctx.part(lemmas)
 
 
 def lemmas(ctx):
